@@ -89,6 +89,8 @@ inductive Slot where
   | lab                  -- `%b`
   | retv                 -- `void` or `T V`
   | phis                 -- `[ V, %b ], [ V, %b ] ...` (operands of the current type); only as the last slot of a row
+  | nums                 -- `, 1, 0` (the index path of extractvalue / insertvalue); only as the last slot of a row
+  | align                -- nothing or `, align N`; only as the last slot of a row
 
 inductive Arg where
   | ty (t : Ty)
@@ -97,11 +99,13 @@ inductive Arg where
   | lab (i : Ident)
   | retv (v : Option (Ty × Operand))
   | phis (incs : List (Operand × Ident))
+  | nums (ks : List Nat)
+  | align (a : Option Nat)
   deriving Inhabited
 
 /-- how the type of the result is obtained (asm newXxxInst: from the types WRITTEN in the defining instruction) -/
 inductive ResKind where
-  | none | first | cmp | loadTy | second | lastTy | elem | firstVec | shuffle | ptrOf
+  | none | first | cmp | loadTy | second | lastTy | elem | firstVec | shuffle | ptrOf | aggElem
 
 structure Row where
   hasRes : Bool
@@ -141,8 +145,8 @@ def rows : List Row := [
   ⟨true, [105, 99, 109, 112, 32, 115, 103, 101, 32], .void, [.tyval, .lit sComma, .val], .cmp, false⟩,
   ⟨true, [105, 99, 109, 112, 32, 115, 108, 116, 32], .void, [.tyval, .lit sComma, .val], .cmp, false⟩,
   ⟨true, [105, 99, 109, 112, 32, 115, 108, 101, 32], .void, [.tyval, .lit sComma, .val], .cmp, false⟩,
-  ⟨true, [108, 111, 97, 100, 32], .void, [.ty, .lit sComma, .tyval], .loadTy, false⟩,
-  ⟨false, [115, 116, 111, 114, 101, 32], .void, [.tyval, .lit sComma, .tyval], .none, false⟩,
+  ⟨true, [108, 111, 97, 100, 32], .void, [.ty, .lit sComma, .tyval, .align], .loadTy, false⟩,
+  ⟨false, [115, 116, 111, 114, 101, 32], .void, [.tyval, .lit sComma, .tyval, .align], .none, false⟩,
   ⟨true, [115, 101, 108, 101, 99, 116, 32], .void, [.tyval, .lit sComma, .tyval, .lit sComma, .tyval], .second, false⟩,
   ⟨false, [114, 101, 116, 32], .void, [.retv], .none, true⟩,
   ⟨false, [98, 114, 32, 108, 97, 98, 101, 108, 32], .void, [.lab], .none, true⟩,
@@ -189,13 +193,27 @@ def rows : List Row := [
   ⟨true, [101, 120, 116, 114, 97, 99, 116, 101, 108, 101, 109, 101, 110, 116, 32], .void, [.tyval, .lit sComma, .tyval], .elem, false⟩,
   ⟨true, [105, 110, 115, 101, 114, 116, 101, 108, 101, 109, 101, 110, 116, 32], .void, [.tyval, .lit sComma, .tyval, .lit sComma, .tyval], .firstVec, false⟩,
   ⟨true, [115, 104, 117, 102, 102, 108, 101, 118, 101, 99, 116, 111, 114, 32], .void, [.tyval, .lit sComma, .tyval, .lit sComma, .tyval], .shuffle, false⟩,
-  ⟨true, [97, 108, 108, 111, 99, 97, 32], .void, [.ty], .ptrOf, false⟩
+  ⟨true, [97, 108, 108, 111, 99, 97, 32], .void, [.ty, .align], .ptrOf, false⟩,
+  -- 71: extractvalue; 72: insertvalue
+  ⟨true, [101, 120, 116, 114, 97, 99, 116, 118, 97, 108, 117, 101, 32], .void, [.tyval, .nums], .aggElem, false⟩,
+  ⟨true, [105, 110, 115, 101, 114, 116, 118, 97, 108, 117, 101, 32], .void, [.tyval, .lit sComma, .tyval, .nums], .first, false⟩
 ]
 
 def phisString (useHex : Int → Bool) (cur : Ty) : List (Operand × Ident) → Bytes
   | [] => []
   | [(o, b)] => sPhiOpen ++ operandString useHex cur o ++ sComma ++ identString b ++ sPhiClose
   | (o, b) :: p :: ps => sPhiOpen ++ operandString useHex cur o ++ sComma ++ identString b ++ sPhiClose ++ sComma ++ phisString useHex cur (p :: ps)
+
+def sAlign : Bytes := [44, 32, 97, 108, 105, 103, 110, 32]          -- ", align "
+
+/-- `, k` for every index -/
+def numsString : List Nat → Bytes
+  | [] => []
+  | k :: ks => sComma ++ natDec k ++ numsString ks
+
+def alignString : Option Nat → Bytes
+  | none => []
+  | some n => sAlign ++ natDec n
 
 def printSlots (useHex : Int → Bool) : Ty → List Slot → List Arg → Bytes
   | _, [], _ => []
@@ -207,6 +225,8 @@ def printSlots (useHex : Int → Bool) : Ty → List Slot → List Arg → Bytes
   | cur, .retv :: fs, .retv none :: as => sVoid ++ printSlots useHex cur fs as
   | cur, .retv :: fs, .retv (some (t, o)) :: as => tyString t ++ [32] ++ operandString useHex t o ++ printSlots useHex cur fs as
   | cur, .phis :: fs, .phis incs :: as => phisString useHex cur incs ++ printSlots useHex cur fs as
+  | cur, .nums :: fs, .nums ks :: as => numsString ks ++ printSlots useHex cur fs as
+  | cur, .align :: fs, .align a :: as => alignString a ++ printSlots useHex cur fs as
   | _, _, _ => []
 
 /-- `[ V, %b ]` groups separated by `, ` -/
@@ -226,6 +246,30 @@ def readPhis : Nat → Ty → Bytes → Option (List (Operand × Ident) × Bytes
          | some (b, 32 :: 93 :: r2) => some ([(o, b)], r2)
          | _ => none)
       | _ => none
+
+/-- `, k, k …` up to the end of the line -/
+def readNums : Nat → Bytes → Option (List Nat)
+  | 0, _ => none
+  | _ + 1, [] => some []
+  | f + 1, s =>
+    match TyParse.stripPrefix sComma s with
+    | none => none
+    | some r =>
+      match parseUint63 (r.takeWhile isDigit) with
+      | some k => (readNums f (r.dropWhile isDigit)).map fun ks => k :: ks
+      | none => none
+
+/-- nothing, or `, align N` up to the end of the line -/
+def readAlign (s : Bytes) : Option (Option Nat) :=
+  match s with
+  | [] => some none
+  | _ =>
+    match TyParse.stripPrefix sAlign s with
+    | none => none
+    | some r =>
+      match parseUint63 r with
+      | some n => some (some n)
+      | none => none
 
 def readSlots : Ty → List Slot → Bytes → Option (List Arg × Bytes)
   | _, [], s => some ([], s)
@@ -269,6 +313,20 @@ def readSlots : Ty → List Slot → Bytes → Option (List Arg × Bytes)
      | some (incs, r) =>
        (match readSlots cur fs r with
         | some (as, r') => some (.phis incs :: as, r')
+        | none => none)
+     | none => none)
+  | cur, .nums :: fs, s =>
+    (match readNums (s.length + 1) s with
+     | some ks =>
+       (match readSlots cur fs [] with
+        | some (as, r') => some (.nums ks :: as, r')
+        | none => none)
+     | none => none)
+  | cur, .align :: fs, s =>
+    (match readAlign s with
+     | some a =>
+       (match readSlots cur fs [] with
+        | some (as, r') => some (.align a :: as, r')
         | none => none)
      | none => none)
   | cur, .retv :: fs, s =>
@@ -468,6 +526,8 @@ def argUses : Arg → List Ident
   | .retv none => []
   | .retv (some (_, o)) => operandUses o
   | .phis incs => incs.flatMap fun p => operandUses p.1 ++ [p.2]
+  | .nums _ => []
+  | .align _ => []
 
 def uses (f : Func) : List Ident :=
   f.blocks.flatMap fun b => (instsOf b).flatMap fun i => i.args.flatMap argUses
@@ -502,6 +562,24 @@ def lastTy : List Arg → Option Ty
   | _ :: as => lastTy as
 
 /-- the type the parser gives the result when it creates the scaffold (from the types written in the defining instruction) -/
+def numsOf : List Arg → List Nat
+  | [] => []
+  | .nums ks :: _ => ks
+  | _ :: as => numsOf as
+
+def nthTy : TyList → Nat → Option Ty
+  | .nil, _ => none
+  | .cons t _, 0 => some t
+  | .cons _ ts, k + 1 => nthTy ts k
+
+/-- asm/inst_aggregate.go aggregateElemType: arrays are stepped into without a bound check, struct fields by index -/
+def aggElem : Ty → List Nat → Option Ty
+  | t, [] => some t
+  | .arr _ e, _ :: ks => aggElem e ks
+  | .struct _ fs, k :: ks => (nthTy fs k).bind fun t => aggElem t ks
+  | _, _ :: _ => none
+termination_by t ks => ks.length
+
 def defTy (i : Inst) : Option Ty :=
   match rows[i.row]? with
   | none => none
@@ -517,6 +595,7 @@ def defTy (i : Inst) : Option Ty :=
     | .firstVec => (match firstTyval i.args with | some (.vec s n e) => some (.vec s n e) | _ => none)
     | .shuffle => (match firstTyval i.args, thirdTyval i.args with | some (.vec _ _ e), some (.vec s m _) => some (.vec s m e) | _, _ => none)
     | .ptrOf => (firstTy i.args).map fun t => .ptr t 0
+    | .aggElem => (firstTyval i.args).bind fun t => aggElem t (numsOf i.args)
 
 def env (f : Func) : List (Ident × Ty) :=
   f.params.map (fun p => (p.2, p.1)) ++
@@ -637,6 +716,8 @@ def argOKB : Arg → Bool
   | .retv none => true
   | .retv (some (t, o)) => operandOKB o && !isVoid t
   | .phis incs => !incs.isEmpty && incs.all fun p => operandOKB p.1 && identOKB p.2
+  | .nums ks => ks.all fun k => decide (k < 2 ^ 63)
+  | .align a => (match a with | some n => decide (n < 2 ^ 63) | none => true)
 
 def matchesB : List Slot → List Arg → Bool
   | [], [] => true
@@ -647,6 +728,8 @@ def matchesB : List Slot → List Arg → Bool
   | .lab :: fs, .lab _ :: as => matchesB fs as
   | .retv :: fs, .retv _ :: as => matchesB fs as
   | .phis :: fs, .phis _ :: as => matchesB fs as
+  | .nums :: fs, .nums _ :: as => matchesB fs as
+  | .align :: fs, .align _ :: as => matchesB fs as
   | _, _ => false
 
 def instOKB (i : Inst) : Bool :=
